@@ -88,11 +88,12 @@ struct Host {
   unsigned envPad = 0; std::string lang;
   int err = 0;                                   // errno left behind by whatever ran before
   uint64_t clock = 0; int pid = 0;               // what the clock and getpid() say (0: the pristine 1000000000 / 4242)
+  bool carry = false;                            // C11: the allocator continues from what the previous step of the history left (heap end, freed blocks)
   unsigned preOut = 0;                           // C11: the output path already holds a file (odd: what the previous step left there; else junk of preOut % 6000 + 1 bytes)
-  bool pristine() const { return heapMode == sim::heap::ZERO && stackMode == sim::STACK_ZERO && arenaMode == 0 && !padSeed && !scribble && !baseShift && !shift && !envPad && lang.empty() && !err && !clock && !pid && !preOut; }
+  bool pristine() const { return heapMode == sim::heap::ZERO && stackMode == sim::STACK_ZERO && arenaMode == 0 && !padSeed && !scribble && !baseShift && !shift && !envPad && lang.empty() && !err && !clock && !pid && !preOut && !carry; }
   std::string str() const {
     return std::string("heap=") + sim::heap::modeName(heapMode) + (padSeed ? "+pad" : "") + (shuffle ? "+shuffle" : "") + (scribble ? "+scribble" : "") + (baseShift ? "+shift" : "") +
-           " stack=" + std::to_string(stackMode) + (shift ? "+shift" : "") + " arena=" + std::to_string(arenaMode) + (envPad ? " env" : "") + (err ? " errno=" + std::to_string(err) : "") + (clock ? " clock" : "") + (preOut ? " preout" : "");
+           " stack=" + std::to_string(stackMode) + (shift ? "+shift" : "") + " arena=" + std::to_string(arenaMode) + (envPad ? " env" : "") + (err ? " errno=" + std::to_string(err) : "") + (clock ? " clock" : "") + (preOut ? " preout" : "") + (carry ? " carry" : "");
   }
 };
 Host hostFrom(const Json &op) {
@@ -112,6 +113,7 @@ Host hostFrom(const Json &op) {
   h.err = (int)(op.getU64("errno") % 134);
   h.clock = op.getU64("clock"); h.pid = (int)(op.getU64("pid") % 4000000);
   h.preOut = (unsigned)(op.getU64("pre_out") % (1u << 24));
+  h.carry = op.getBool("carry");
   return h;
 }
 Json hostToJson(Json op, const Host &h) {
@@ -129,6 +131,7 @@ Json hostToJson(Json op, const Host &h) {
   if (h.clock) op["clock"] = (unsigned long long)h.clock;
   if (h.pid) op["pid"] = h.pid;
   if (h.preOut) op["pre_out"] = h.preOut;
+  if (h.carry) op["carry"] = true;
   return op;
 }
 Host randomHost(Rng &r, bool c12) {
@@ -149,6 +152,7 @@ Host randomHost(Rng &r, bool c12) {
   if (r.chance(1, 3)) { static const int e[] = {ERANGE, EINTR, ENOENT, EAGAIN, EINVAL, ENOMEM}; h.err = e[r.below(6)]; }
   if (r.chance(1, 2)) { h.clock = 946684800 + r.below(2000000000); h.pid = 2 + (int)r.below(300000); }
   if (!c12 && r.chance(1, 3)) h.preOut = 1 + (unsigned)r.below((1u << 24) - 1);
+  if (!c12 && r.chance(1, 3)) h.carry = true;
   return h;
 }
 void applyEnv(const Host &h) {
@@ -164,11 +168,12 @@ sim::heap::Config heapCfg(const Host &h) {
 
 // Runs f as the code under test: simulated heap and stack.  The 90 s alarm only stops a genuinely hung
 // tool; wall-clock time never decides a verdict (a watchdog hit is 'skipped', see hung()).
+const sim::heap::Carry *g_carryIn = nullptr;      // set by C11 around a step whose host continues the previous step's heap
 sim::Trapped underHost(const Host &h, const std::function<int()> &f) {
   applyEnv(h);
   sim::Trapped t;
   sim::simclock::activate(h.clock ? h.clock : 1000000000ull, h.pid ? h.pid : 4242);
-  sim::heap::begin(heapCfg(h));
+  sim::heap::begin(heapCfg(h), h.carry ? g_carryIn : nullptr);
   sim::callOnDirtyStack(h.stackMode, h.stackBytes, h.stackSeed, h.shift, [&]() { t = sim::runTrapped([&]() { errno = h.err; return f(); }, 90); });
   sim::heap::end();
   sim::simclock::deactivate();
@@ -224,6 +229,7 @@ struct C12View {
   std::string simin[8]; bool siminPresent[8] = {};
   uint64_t budget = 20000;
   bool hasSymbols = false;
+  uint64_t cycleBase = 0;      // unlimited runs start with the simulator's cycle counter here (hook H1)
 };
 
 class HostSim : public sim::Harness {
@@ -311,7 +317,7 @@ public:
   Json genC12(Rng &r, uint64_t) {
     Json plan = Json::object(), cfg = Json::object(), ops = Json::array();
     cfg["mode"] = "c12";
-    cfg["max_steps"] = (unsigned long long)(tier == "thorough" ? 60000 : 20000);
+    cfg["max_steps"] = (unsigned long long)(r.chance(1, 8) ? 120000 : tier == "thorough" ? 60000 : 20000);    // one plan in eight passes 65 536 instructions
     const CorpusEntry *ce = nullptr;
     {
       Json op = Json::object(); op["op"] = "image";
@@ -361,6 +367,7 @@ public:
       Json op = Json::object(); op["op"] = "options";
       op["trace"] = r.chance(1, 3);
       if (r.chance(1, 6)) op["dump"] = true;
+      if (r.chance(1, 5)) { static const unsigned bits[] = {8, 15, 16, 24, 31, 32, 32, 33, 48, 62}; op["cycle_base"] = (unsigned long long)((1ull << bits[r.below(10)]) - r.below(40)); }   // simulated time starts just below a power of two
       if (r.chance(1, 2)) op["max_cycles"] = (unsigned long long)(r.chance(1, 3) ? r.below(4) : r.below(400));   // resolved against the run length at execution
       ops.push(op);
     }
@@ -402,6 +409,7 @@ public:
     if (k < 3 || g_sources.empty()) {
       Rng gr = r.fork(11);
       if (r.chance(1, 4)) { if (r.chance(2, 3)) { text = gen::makeSizedAsm(gr); isX = false; origin = "sizedasm"; } else { text = gen::makeSizedX(gr); origin = "sizedx"; } }
+      else if (r.chance(1, 8)) { text = gen::makeAliasAsm(gr); isX = false; origin = "aliasasm"; }
       else if (r.chance(2, 3)) { text = gen::makeX(gr); origin = "xgen"; } else { text = gen::makeAsm(gr); isX = false; origin = "asmgen"; }
     } else {
       const Src *s = &g_sources[r.below(g_sources.size())];
@@ -459,7 +467,7 @@ public:
   }
   void simplifyHost(const Json &op, std::vector<Json> &out) {
     // Towards the pristine host state, one dimension at a time.
-    for (const char *k : {"pad_seed", "base_shift", "shuffle", "scribble", "shift", "env_pad", "lang", "arena", "stack", "errno", "clock", "pid", "pre_out"}) {
+    for (const char *k : {"pad_seed", "base_shift", "shuffle", "scribble", "shift", "env_pad", "lang", "arena", "stack", "errno", "clock", "pid", "pre_out", "carry"}) {
       if (!op.has(k)) continue;
       Json c = op; c.erase(k);
       if (std::string(k) == "stack") c["stack"] = 1;
@@ -512,7 +520,7 @@ public:
         if (op.has("xsource")) v.xsource = op.getStr("xsource");
         v.progName = op.getStr("corpus", op.getStr("from_corpus", "generated"));
       } else if (k == "input") v.input = sim::fromHex(op.getStr("hex"));
-      else if (k == "options") { v.trace = op.getBool("trace"); v.dump = op.getBool("dump"); if (op.has("max_cycles")) { v.hasMax = true; v.maxCycles = op.getU64("max_cycles"); } }
+      else if (k == "options") { v.trace = op.getBool("trace"); v.dump = op.getBool("dump"); if (op.has("max_cycles")) { v.hasMax = true; v.maxCycles = op.getU64("max_cycles"); } v.cycleBase = op.getU64("cycle_base"); }
       else if (k == "host") { v.hosts.push_back(hostFrom(op)); std::string l = op.getStr("level", "lib"); v.toolLevel.push_back(l == "lib" ? 0 : l == "xrun" ? 2 : 1); }
       else if (k == "simin") { unsigned i = (unsigned)(op.getU64("idx") & 7); v.siminPresent[i] = true; v.simin[i] = sim::fromHex(op.getStr("hex")); }
     }
@@ -555,6 +563,7 @@ public:
     std::istream ins(&inb); std::ostream outs(&outb);
     ObsCtx oc; oc.stopAfter = stopAfter; oc.sys = &res.syscalls;
     hexsim::Processor *p = nullptr;
+    hexsim::Processor::verifCycleBase() = maxCycles ? 0 : (size_t)v.cycleBase;     // a cycle limit is tied to the count: only unlimited runs are shifted
     res.t = underHost(h, [&]() -> int {
       p = new (g_procBuf) hexsim::Processor(ins, outs, (size_t)maxCycles);
       p->verifObserver = observe; p->verifCtx = &oc;
@@ -564,6 +573,7 @@ public:
       oc.nextInst = (uint8_t)p->verifMemory()[0];
       return p->run();
     });
+    hexsim::Processor::verifCycleBase() = 0;
     res.steps = oc.steps;
     res.stoppedByObserver = oc.stopped;
     res.out = outb.data; res.consumed = inb.consumed();
@@ -588,7 +598,9 @@ public:
     for (auto &a : argv) av.push_back(a.c_str());
     av.push_back(nullptr);
     int argc = (int)argv.size();
+    hexsim::Processor::verifCycleBase() = maxCycles ? 0 : (size_t)v.cycleBase;
     res.t = underHost(h, [&]() -> int { return viaXrun ? xrun_main(argc, (char **)av.data()) : hexsim_main(argc, av.data()); });
+    hexsim::Processor::verifCycleBase() = 0;
     res.out = ss.out.data; res.consumed = ss.in.consumed();
     ss.detach();
     collectFiles(res);
@@ -638,6 +650,7 @@ public:
     std::string imgClass = v.progName != "generated" ? "corpus" : readUnwritten ? "reads_unwritten" : "generated";
     sim::g_log.evs("image", v.progName, sim::hashStr(v.file));
     if (v.tailCut) o.count("fault.file_ends_inside_last_word");
+    if (v.cycleBase) { o.count("fault.cycle_counter_starts_high"); sim::g_log.ev("cycle_base", v.cycleBase); }
     // Where the defined part of the run ends: EXIT, or `steps` instructions (domain cut / budget).
     uint64_t stopAfter = exited ? 0 : steps;
     std::vector<Host> hosts; std::vector<int> tool;
@@ -914,6 +927,7 @@ public:
   void execC11(const Json &plan, Outcome &o) {
     unsigned pos = 0;
     std::string lastOut;          // what the previous step of this history left at the output path
+    sim::heap::Carry lastCarry;   // what it left in the allocator
     for (auto &op : plan.at("ops").a) {
       if (op.getStr("op") != "step") continue;
       std::string tool = op.getStr("tool", "xcmp"), action = op.getStr("action", "binary"), via = op.getStr("via", "main");
@@ -949,7 +963,12 @@ public:
         else { uint64_t sd = h.preOut; size_t n = 1 + h.preOut % 6000; for (size_t q = 0; q < n; q++) pre.push_back((char)(sim::splitmix64(sd) >> 24)); }
         o.count(pre == lastOut ? "fault.output_path_holds_previous_build" : "fault.output_path_holds_junk");
       }
+      bool carried = h.carry && lastCarry.valid;
+      g_carryIn = carried ? &lastCarry : nullptr;
+      if (carried) o.count("fault.heap_continues_from_previous_step");
       StepRes r = runStep(tool, action, via, src, h, h.preOut ? &pre : nullptr);
+      g_carryIn = nullptr;
+      sim::heap::saveCarry(lastCarry);
       if (hung(r.t)) { o.count("probe.watchdog_hit"); o.note = "skipped:watchdog"; return; }
       // A step that writes no binary (listing action, rejected source) leaves the file that was there.
       if (h.preOut && !ref.files.count("out.bin")) { auto f = r.files.find("out.bin"); if (f != r.files.end() && f->second == pre) r.files.erase(f); }
